@@ -63,11 +63,25 @@ check("C17", "luaref+gen+glrun", "exploration",
       "A statement spread over several lines admits any of its lines; temporaries and hidden loop variables are ignored; upvalue lists are compared as sets.",
       "small-scope exhaustive enumeration of programs x layouts against an executable reference model with token positions", "DESIGN.md §4 C17")
 
+check("C05", "faultenum", "fault_enumeration",
+      "Deviation-bounded fault enumeration on the real interpreter: 171 base programs (protected region kind pcall/xpcall/Go PCall/protected CallByParam/coroutine.resume/wrap-in-pcall, nested up to 3 deep, in caller loops, entered from metamethods/comparators/gsub callbacks/iterators/host callbacks) x 12 body kinds; one run per instruction boundary with RaiseError injected there (every boundary of the fault-free run, through the per-instruction step hook), one run per host-function call with a Go panic / nil dereference / RaiseError / error(table) raised inside it; thorough tier adds a second fault after the first recovery. Oracle: no escaping Go panic, innermost region fails exactly once, trace = fault-free prefix ++ failure ++ fault-free continuation, white-box snapshot restored, xpcall handler ran once before unwinding, canary program behaves as on a fresh state. error(v) for values of every type is compared with the reference interpreter.",
+      "Base programs and their instruction boundaries (about 10^5 fault points quick); injected RaiseError at a boundary is the fault cancellation produces; expected traces are derived from the validated fault-free run of the same program.",
+      "exhaustive single-fault (and bounded double-fault) injection at every instruction boundary and host call of a program family, with trace and white-box state oracles", "DESIGN.md §4 C05")
+check("C12", "histbfs", "model_checking",
+      "BFS over operation histories of the unexported call-frame stacks (fixed and auto-growing, sizes around segment boundaries, poisoned segment pool) and of the registry (initial/grow/max combinations) against slice models; end-to-end limit cases on real states (recursion depth limit-2..limit+2 for CallStackSize 1..18,256 x MinimizeStackMemory in 12 protected contexts; argument/unpack/constructor sizes straddling the registry limit for fixed and growing registries) with snapshot, follow-up and closure oracles; a program corpus under 24 Options configurations with identical traces required.",
+      "Bounded history depth and sizes as listed in the evidence; outcomes between CallStackSize and the next segment multiple, and between lower and upper bounds of register demand, are accepted either way but must be clean.",
+      "explicit-state BFS of operation histories against slice models + exhaustive boundary windows on real states + configuration product", "DESIGN.md §4 C12")
+check("C19", "histbfs", "model_checking",
+      "BFS over file-operation histories (write/read by count, line, all, number/lines/seek set-cur-end/flush/setvbuf/close/reopen, operations after close) on 8 initial file images around the 4096-byte buffer boundary x 6 open modes, obeying the ISO C read/write switching rule; each history replayed on a freshly written real file; returned values, cursor, and bytes on disk (via a new handle and os.ReadFile) compared with a byte-slice+cursor model after every step.",
+      "Bounded depth (3-6 depending on menu size, quick; 4-7 thorough); real OS I/O errors are not injected.",
+      "explicit-state BFS of operation histories on real files with a reference model", "DESIGN.md §4 C19")
+
 engines = [
  {"name":"histbfs","path":"internal/props (c09.go, c18.go, ...)","kind_free_text":"explicit-state BFS over operation histories; successor = replay on a fresh real object + 1 operation; state key = reference model + white-box layout"},
  {"name":"luaref+gen+glrun","path":"internal/luaref, internal/glrun, internal/props/progrun.go","kind_free_text":"bounded-exhaustive program generators, reference Lua 5.1 interpreter, trace comparison with gopher-lua"},
  {"name":"luaref+histbfs","path":"internal/props/c06.go","kind_free_text":"BFS over histories rendered as programs, executed on gopher-lua and on the reference interpreter"},
  {"name":"bcverify","path":"internal/bcverify, internal/props/c07*.go","kind_free_text":"structural bytecode verifier over exhaustively generated program families"},
+ {"name":"faultenum","path":"internal/props/c05.go","kind_free_text":"single/double fault injection at every instruction boundary (step hook) and host call"},
  {"name":"inputenum","path":"internal/props","kind_free_text":"exhaustive enumeration of inputs over small alphabets against reference definitions"},
 ]
 for e in engines:
